@@ -12,7 +12,7 @@
 // `Effect` to a ghost log carried by the stand-in `Repository` (`repository.w@.log`); the hooks' postconditions state the log
 // EXACTLY (`final log == old log + expected effects`), so a missing, doubled, misdirected or additional effect fails the proof.
 // The argument vectors on which the code does NOT follow git's reading are named deviation classes (`dev_*`); they are findings
-// (REPORT.md, all reproduced end to end), never encoded as expected behaviour.
+// (REPORT.md), never encoded as expected behaviour; the repaired ones (F1, F3, F4, F5) are required behaviour now.
 use vstd::prelude::*;
 use vstd::std_specs::iter::IteratorSpec;
 verus! {
@@ -110,6 +110,21 @@ fn opq_tail_to_vec(v: &Vec<String>, k: usize) -> (r: Vec<String>)
     requires k <= v@.len(),
     ensures strs(r@) == strs(v@).subrange(k as int, v@.len() as int),
 { unimplemented!() }
+/// the whole loop of pathspecs_without_separator (`for` with `continue` after other statements: outside the verifier's subset) - TRUSTED,
+/// checked by the replay sweep: the positionals, in order
+#[verifier::external_body]
+fn opq_co_scan(v: &Vec<String>, out: &mut Vec<String>, skip_next: &mut bool)
+    requires old(out)@.len() == 0, !*old(skip_next),
+    ensures strs(final(out)@) == co_positionals(strs(v@), 0),
+{ unimplemented!() }
+#[verifier::external_body] pub struct GitObject { _o: () }
+impl Repository {
+    /// `git rev-parse --verify <spec>` (stand-in: the real parameter is &str)
+    #[verifier::external_body]
+    pub fn revparse_single(&self, spec: &String) -> (o: Result<GitObject, GitAiError>)
+        ensures o is Ok <==> is_rev(spec@),
+    { unimplemented!() }
+}
 /// `repository.head().ok().and_then(|h| h.target().ok())`: what HEAD resolves to NOW
 #[verifier::external_body]
 fn opq_head_target(r: &Repository) -> (o: Option<String>)
@@ -181,9 +196,25 @@ proof fn lemma_sep_unique(a: Seq<Seq<char>>, k: int)
     if c < k { assert(a[c] != "--"@); }
     if k < c { assert(a[k] != "--"@); }
 }
-/// WITHOUT `--` git decides with the repository which positionals are pathspecs ("git checkout f.txt", "git checkout HEAD~1 f.txt",
-/// "git checkout ."): a function of the argument vector alone cannot know; it stays uninterpreted (the driver's generator knows)
-pub uninterp spec fn git_nosep_paths(a: Seq<Seq<char>>) -> Seq<Seq<char>>;
+pub open spec fn dash(t: Seq<char>) -> bool { t.len() > 0 && t[0] == '-' }
+/// git-checkout(1): the options that take their value as the NEXT argument
+pub open spec fn co_takes_value(t: Seq<char>) -> bool { t == "-b"@ || t == "-B"@ || t == "--orphan"@ || t == "--conflict"@ || t == "--pathspec-from-file"@ }
+/// the positional arguments of a[i..): what is neither an option nor the value of one
+pub open spec fn co_positionals(a: Seq<Seq<char>>, i: int) -> Seq<Seq<char>>
+    decreases a.len() - i
+{
+    if i < 0 || i >= a.len() { Seq::empty() }
+    else if dash(a[i]) { if co_takes_value(a[i]) && i + 1 < a.len() { co_positionals(a, i + 2) } else { co_positionals(a, i + 1) } }
+    else { seq![a[i]] + co_positionals(a, i + 1) }
+}
+/// `git rev-parse --verify <x>` succeeds (the repository's answer; uninterpreted)
+pub uninterp spec fn is_rev(x: Seq<char>) -> bool;
+/// WITHOUT `--` ("git checkout f.txt", "git checkout HEAD~1 f.txt", "git checkout ."): "git checkout [<tree-ish>] <pathspec>...": the first
+/// positional is the tree-ish when it names a revision (git refuses an argument that is both a revision and a file), the rest are pathspecs
+pub open spec fn git_nosep_paths(a: Seq<Seq<char>>) -> Seq<Seq<char>> {
+    let p = co_positionals(a, 0);
+    if p.len() > 0 && is_rev(p[0]) { p.subrange(1, p.len() as int) } else { p }
+}
 pub open spec fn git_paths(a: Seq<Seq<char>>) -> Seq<Seq<char>> { if has_sep(a) { sep_paths(a) } else { git_nosep_paths(a) } }
 /// parse-options: a short option may be bundled with value-less short options in front of it (`-qf`)
 pub open spec fn bundle_has(t: Seq<char>, c: char, valueless: Set<char>) -> bool {
@@ -229,14 +260,18 @@ pub open spec fn sw_effects(a: Seq<Seq<char>>, ok: bool, old: Option<Seq<char>>,
     if !ok || old is None || new is None { Seq::empty() }
     else { switch_effects(sw_force(a), sw_merge(a), old.unwrap(), new.unwrap(), captured) }
 }
-// ---- deviation classes: argument vectors / situations on which the code does not do the above (REPORT.md, findings F1..F4)
-/// F1: a path checkout written without `--` (`git checkout f.txt`, `git checkout HEAD f.txt`, `git checkout .`) is not seen as one
-pub open spec fn dev_paths_without_sep(a: Seq<Seq<char>>) -> bool { !has_sep(a) && git_nosep_paths(a).len() > 0 }
+// ---- deviation classes: argument vectors / situations on which the code does not do the above (REPORT.md; F1, F3, F4, F5 were REPAIRED
+// in /repo and are REQUIRED now; what is left: F2 spellings, the forced bare-path checkout, and the stash classes F6 / F8)
+/// a path checkout written without `--` (repaired finding F1: /repo 56a9cab7 - now REQUIRED to drop exactly these paths)
+pub open spec fn bare_path_checkout(a: Seq<Seq<char>>) -> bool { !has_sep(a) && git_nosep_paths(a).len() > 0 }
+/// git fact: a path checkout does not move HEAD
+pub open spec fn path_checkout_keeps_head(a: Seq<Seq<char>>, old: Option<Seq<char>>, new: Option<Seq<char>>) -> bool { bare_path_checkout(a) ==> old == new }
+/// residue of F1 + F3: `git checkout -f f.txt` (forced, paths without `--`) drops the WHOLE working log instead of the named paths (a loss)
+pub open spec fn dev_force_bare_paths(a: Seq<Seq<char>>) -> bool { bare_path_checkout(a) && co_force_exact(a) }
 /// F2: force / merge spelled as a bundle (`-qf`), as an abbreviation (`--forc`), - or an exact spelling that is not an option (after `--`)
 pub open spec fn dev_co_spelling(a: Seq<Seq<char>>) -> bool { co_force(a) != co_force_exact(a) || co_merge(a) != merge_exact(a) }
 pub open spec fn dev_sw_spelling(a: Seq<Seq<char>>) -> bool { sw_force(a) != sw_force_exact(a) || sw_merge(a) != merge_exact(a) }
-/// F3: a forced checkout / switch that does not move HEAD (`git checkout -f`, `git switch --discard-changes <current>`) drops nothing
-pub open spec fn dev_force_same_head(force: bool, old: Option<Seq<char>>, new: Option<Seq<char>>) -> bool { force && old is Some && old == new }
+// (repaired finding F3, /repo 4492141d: a forced checkout / switch drops the old head's log also when HEAD does not move - REQUIRED by switch_effects)
 
 proof fn lemma_seq1_push(s: Seq<Effect>, e: Effect)
     ensures s.push(e) == s + seq![e],
@@ -295,7 +330,37 @@ fn is_merge_checkout(parsed_args: &ParsedGitInvocation) -> (r_: bool)
 }
 //#end
 
-//#item file=src/commands/hooks/checkout_hooks.rs kind=fn name=post_checkout_hook opaque='[{"expr": "repository.head().ok().and_then(|h| h.target().ok())", "call": "opq_head_target(repository)"}, {"expr": "&format!( \"Pathspec checkout detected, removing attributions for: {:?}\", pathspecs )", "call": "opq_msg()"}, {"expr": "remove_attributions_for_pathspecs(repository, &old_head, &pathspecs)", "call": "opq_call_drop_paths(repository, &old_head, &pathspecs)"}, {"expr": "old_head == new_head", "call": "opq_string_eq(&old_head, &new_head)"}, {"expr": "&format!( \"Force checkout detected, deleting working log for {}\", &old_head )", "call": "opq_msg()"}, {"expr": "repository .storage .delete_working_log_for_base_commit(&old_head)", "call": "opq_delete_log(repository, &old_head)"}, {"expr": "&format!( \"Checkout changed HEAD: {} -> {}\", &old_head, &new_head )", "call": "opq_msg()"}, {"expr": "repository.storage.rename_working_log(&old_head, &new_head)", "call": "opq_rename_log(repository, &old_head, &new_head)"}]'
+/// strs of a vector without its first element
+proof fn lemma_strs_remove0(v0: Seq<String>, v1: Seq<String>)
+    requires v0.len() > 0, v1 == v0.remove(0),
+    ensures strs(v1) == strs(v0).subrange(1, v0.len() as int),
+{ assert(strs(v1) =~= strs(v0).subrange(1, v0.len() as int)); }
+//#item file=src/commands/hooks/checkout_hooks.rs kind=fn name=pathspecs_without_separator opaque='[{"stmt_from": "for arg in &parsed_args.command_args {", "call": "opq_co_scan(&parsed_args.command_args, &mut positionals, &mut skip_next);"}]'
+fn pathspecs_without_separator(
+    parsed_args: &ParsedGitInvocation,
+    repository: &Repository,
+) -> (r_: Vec<String>)
+//@     ensures strs(r_@) == git_nosep_paths(strs(parsed_args.command_args@)),
+{
+    let mut positionals: Vec<String> = Vec::new();
+    let mut skip_next = false;
+    opq_co_scan(&parsed_args.command_args, &mut positionals, &mut skip_next);
+
+    //@ let ghost p0 = positionals@;
+    //@ proof { assert(strs(p0).len() == p0.len()); }
+    // Git reads the first positional as the tree-ish when it names a revision
+    // (without `--` it rejects an argument that is both a revision and a file).
+    if let Some(first) = positionals.first() { if repository.revparse_single(first).is_ok() {
+        //@ proof { assert(strs(p0)[0] == first@); }
+        positionals.remove(0);
+        //@ proof { lemma_strs_remove0(p0, positionals@); }
+    } }
+
+    positionals
+}
+//#end
+
+//#item file=src/commands/hooks/checkout_hooks.rs kind=fn name=post_checkout_hook opaque='[{"expr": "repository.head().ok().and_then(|h| h.target().ok())", "call": "opq_head_target(repository)"}, {"expr": "&format!( \"Pathspec checkout detected, removing attributions for: {:?}\", pathspecs )", "call": "opq_msg()"}, {"expr": "remove_attributions_for_pathspecs(repository, &old_head, &pathspecs)", "call": "opq_call_drop_paths(repository, &old_head, &pathspecs)"}, {"expr": "old_head == new_head", "call": "opq_string_eq(&old_head, &new_head)"}, {"expr": "&format!( \"Force checkout detected, deleting working log for {}\", &old_head )", "call": "opq_msg()"}, {"expr": "repository .storage .delete_working_log_for_base_commit(&old_head)", "call": "opq_delete_log(repository, &old_head)"}, {"expr": "&format!( \"Pathspec checkout without `--` detected, removing attributions for: {:?}\", pathspecs )", "call": "opq_msg()"}, {"expr": "&format!( \"Checkout changed HEAD: {} -> {}\", &old_head, &new_head )", "call": "opq_msg()"}, {"expr": "repository.storage.rename_working_log(&old_head, &new_head)", "call": "opq_rename_log(repository, &old_head, &new_head)"}]'
 pub fn post_checkout_hook(
     parsed_args: &ParsedGitInvocation,
     repository: &mut Repository,
@@ -306,9 +371,9 @@ pub fn post_checkout_hook(
 //@         same_env(*old(repository), *final(repository)),
 //@         // C02, first of all: a command that failed leaves everything as it was - on EVERY argument vector
 //@         !exit_ok(exit_status) ==> final(repository).w@.log == old(repository).w@.log,
-//@         // outside the deviation classes: exactly the effects the property asks for, in the working log of the right commit, once
-//@         !dev_paths_without_sep(strs(parsed_args.command_args@)) && !dev_co_spelling(strs(parsed_args.command_args@))
-//@             && !dev_force_same_head(co_force(strs(parsed_args.command_args@)) && git_paths(strs(parsed_args.command_args@)).len() == 0, opt_view(old(repository).pre_command_base_commit), old(repository).w@.head)
+//@         // outside the remaining deviation classes: exactly the effects the property asks for, in the working log of the right commit, once
+//@         !dev_co_spelling(strs(parsed_args.command_args@)) && !dev_force_bare_paths(strs(parsed_args.command_args@))
+//@             && path_checkout_keeps_head(strs(parsed_args.command_args@), opt_view(old(repository).pre_command_base_commit), old(repository).w@.head)
 //@             && (co_merge(strs(parsed_args.command_args@)) || old(command_hooks_context).stashed_va is None)
 //@         ==> final(repository).w@.log == old(repository).w@.log + checkout_effects(strs(parsed_args.command_args@), exit_ok(exit_status),
 //@                 opt_view(old(repository).pre_command_base_commit), old(repository).w@.head, old(command_hooks_context).stashed_va),
@@ -343,17 +408,33 @@ pub fn post_checkout_hook(
     }
 
     //@ proof { assert(strs(pathspecs@).len() == 0); }
-    // Case 2: HEAD unchanged (e.g., checkout current branch)
-    if opq_string_eq(&old_head, &new_head) {
-        debug_log("HEAD unchanged after checkout, no working log handling needed");
-        return;
-    }
-
-    // Case 3: Force checkout - delete working log (changes discarded)
+    // Case 2: Force checkout - delete working log (changes discarded).
+    // Checked before the HEAD comparison: `git checkout -f` discards local changes
+    // even when HEAD does not move.
     if is_force_checkout(parsed_args) {
         debug_log(opq_msg());
         let _ = opq_delete_log(repository, &old_head);
         //@ proof { lemma_seq1_push(log0, Effect::DeleteLog { base: old_head@ }); }
+        return;
+    }
+
+    // Case 3: HEAD unchanged (e.g., checkout current branch)
+    if opq_string_eq(&old_head, &new_head) {
+        // `git checkout <path>...` / `git checkout <tree-ish> <path>...` written without `--`
+        // reverts files just like Case 1: remove their attributions
+        if !parsed_args.has_command_flag("--") {
+            //@ proof { if has_sep(a) { let i = choose|i: int| 0 <= i < a.len() && #[trigger] a[i] == "--"@; assert(a.contains("--"@)); } }
+            let pathspecs = pathspecs_without_separator(parsed_args, repository);
+            //@ proof { assert(strs(pathspecs@).len() == pathspecs@.len()); }
+            if !pathspecs.is_empty() {
+                debug_log(opq_msg());
+                opq_call_drop_paths(repository, &old_head, &pathspecs);
+                //@ proof { lemma_seq1_push(log0, Effect::DropPaths { base: old_head@, paths: git_paths(a) }); }
+                return;
+            }
+        }
+        //@ proof { if !has_sep(a) { assert(!a.contains("--"@)) by { if a.contains("--"@) { let i = choose|i: int| 0 <= i < a.len() && a[i] == "--"@; assert(a[i] == "--"@); } } } }
+        debug_log("HEAD unchanged after checkout, no working log handling needed");
         return;
     }
 
@@ -517,7 +598,6 @@ pub fn post_switch_hook(
 //@         same_env(*old(repository), *final(repository)),
 //@         !exit_ok(exit_status) ==> final(repository).w@.log == old(repository).w@.log,
 //@         !dev_sw_spelling(strs(parsed_args.command_args@))
-//@             && !dev_force_same_head(sw_force(strs(parsed_args.command_args@)), opt_view(old(repository).pre_command_base_commit), old(repository).w@.head)
 //@             && (sw_merge(strs(parsed_args.command_args@)) || old(command_hooks_context).stashed_va is None)
 //@         ==> final(repository).w@.log == old(repository).w@.log + sw_effects(strs(parsed_args.command_args@), exit_ok(exit_status),
 //@                 opt_view(old(repository).pre_command_base_commit), old(repository).w@.head, old(command_hooks_context).stashed_va),
@@ -539,16 +619,18 @@ pub fn post_switch_hook(
         None => return,
     };
 
-    if opq_string_eq(&old_head, &new_head) {
-        debug_log("HEAD unchanged after switch, no working log handling needed");
-        return;
-    }
-
-    // Force switch - delete working log (changes discarded)
+    // Force switch - delete working log (changes discarded).
+    // Checked before the HEAD comparison: `git switch --discard-changes <current branch>`
+    // discards local changes even though HEAD does not move.
     if is_force_switch(parsed_args) {
         debug_log(opq_msg());
         let _ = opq_delete_log(repository, &old_head);
         //@ proof { lemma_seq1_push(log0, Effect::DeleteLog { base: old_head@ }); }
+        return;
+    }
+
+    if opq_string_eq(&old_head, &new_head) {
+        debug_log("HEAD unchanged after switch, no working log handling needed");
         return;
     }
 
@@ -574,12 +656,15 @@ pub fn post_switch_hook(
 #[verifier::external_body] pub struct LineAttrs { _o: () }            // Vec<LineAttribution>
 #[verifier::external_body] pub struct InitFiles { _o: () }            // HashMap<String, Vec<LineAttribution>>
 #[verifier::external_body] pub struct InitPrompts { _o: () }          // HashMap<String, PromptRecord>
-#[verifier::external_body] pub struct PersistedWorkingLog { _o: () }
+#[verifier::external_body] pub struct InitialFile { _o: () }         // PathBuf of <working log dir>/INITIAL
+pub struct PersistedWorkingLog { pub initial_file: InitialFile }
 #[verifier::external_body] pub struct AuthorshipLog { _o: () }
 pub struct InitialAttributions { pub files: InitFiles, pub prompts: InitPrompts }
 pub uninterp spec fn fview(f: InitFiles) -> Map<Seq<char>, LineAttrs>;
 pub uninterp spec fn la_empty(v: LineAttrs) -> bool;
-pub uninterp spec fn wl_head(w: PersistedWorkingLog) -> Seq<char>;
+/// the base commit whose working log the INITIAL file belongs to
+pub uninterp spec fn file_head(f: InitialFile) -> Seq<char>;
+pub open spec fn wl_head(w: PersistedWorkingLog) -> Seq<char> { file_head(w.initial_file) }
 /// what the INITIAL file of `base`'s working log holds when the function under contract starts (empty when there is no file)
 pub uninterp spec fn init_files(base: Seq<char>) -> InitFiles;
 pub uninterp spec fn init_prompts(base: Seq<char>) -> InitPrompts;
@@ -597,11 +682,27 @@ pub uninterp spec fn fact_initial_is(base: Seq<char>, m: Map<Seq<char>, LineAttr
 /// FACT: `git notes --ref=ai-stash add -f -F - <stash>` was given `content`
 pub uninterp spec fn fact_note_saved(stash: Seq<char>, content: Seq<char>) -> bool;
 /// the INITIAL attribution of `base` is now m: it was written, or there is nothing to hold and nothing was there
+/// FACT (only the remove stub establishes it): the INITIAL file of `base`'s working log was removed
+pub uninterp spec fn fact_initial_removed(base: Seq<char>) -> bool;
 pub open spec fn initial_now_is(base: Seq<char>, m: Map<Seq<char>, LineAttrs>, p: InitPrompts) -> bool {
-    fact_initial_is(base, m, p) || (m_empty(m) && m_empty(fview(init_files(base))))
+    fact_initial_is(base, m, p) || (m_empty(m) && (m_empty(fview(init_files(base))) || fact_initial_removed(base)))
 }
-/// F5: asked to write NO entries over an INITIAL file that holds some, write_initial_attributions leaves the file as it is
-pub open spec fn dev_empty_write(base: Seq<char>, m: Map<Seq<char>, LineAttrs>) -> bool { m_empty(nonempty(m)) && !m_empty(fview(init_files(base))) }
+impl InitialFile {
+    /// Path::exists: without a file read_initial_attributions answers the empty default
+    #[verifier::external_body] pub fn exists(&self) -> (r: bool) ensures !r ==> m_empty(fview(init_files(file_head(*self)))), { unimplemented!() }
+}
+/// std::fs as the storage uses it on the INITIAL file (stand-in module: the calls are NOT abstracted away, removing one fails the contract)
+pub mod fs {
+    use super::*;
+    #[verifier::external_body]
+    pub fn remove_file(f: &InitialFile) -> (r: Result<(), GitAiError>)
+        ensures r is Ok ==> fact_initial_removed(file_head(*f)),
+    { unimplemented!() }
+    #[verifier::external_body]
+    pub fn write(f: &InitialFile, json: String) -> (r: Result<(), GitAiError>)
+        ensures r is Ok ==> fact_initial_is(file_head(*f), json_of(json@).0, json_of(json@).1),
+    { unimplemented!() }
+}
 impl RepoStorage {
     #[verifier::external_body] pub fn working_log_for_base_commit(&self, sha: &str) -> (r: PersistedWorkingLog) ensures wl_head(r) == sha@, { unimplemented!() }
 }
@@ -625,17 +726,13 @@ pub uninterp spec fn json_of(s: Seq<char>) -> (Map<Seq<char>, LineAttrs>, InitPr
 fn opq_to_json(d: &InitialAttributions) -> (r: Result<String, GitAiError>)
     ensures r matches Ok(s) ==> json_of(s@) == (fview(d.files), d.prompts),
 { unimplemented!() }
-#[verifier::external_body]
-fn opq_fs_write_initial(w: &PersistedWorkingLog, json: String) -> (r: Result<(), GitAiError>)
-    ensures r is Ok ==> fact_initial_is(wl_head(*w), json_of(json@).0, json_of(json@).1),
-{ unimplemented!() }
 proof fn lemma_nonempty_idem(m: Map<Seq<char>, LineAttrs>)
     ensures nonempty(nonempty(m)) =~= nonempty(m),
 { }
 impl PersistedWorkingLog {
     #[verifier::external_body] pub fn read_initial_attributions(&self) -> (r: InitialAttributions)
         ensures r.files == init_files(wl_head(*self)), r.prompts == init_prompts(wl_head(*self)), { unimplemented!() }
-//#item file=src/git/repo_storage.rs kind=fn name=write_initial_attributions impl="PersistedWorkingLog" opaque='[{"expr": "HashMap<String, Vec<LineAttribution>>", "call": "InitFiles"}, {"expr": "HashMap<String, PromptRecord>", "call": "InitPrompts"}, {"expr": "attributions .into_iter() .filter(|(_, attrs)| !attrs.is_empty()) .collect()", "call": "opq_drop_empty(attributions)"}, {"expr": "serde_json::to_string_pretty(&initial_data)?", "call": "opq_to_json(&initial_data)?"}, {"expr": "fs::write(&self.initial_file, json)?", "call": "opq_fs_write_initial(self, json)?"}]'
+//#item file=src/git/repo_storage.rs kind=fn name=write_initial_attributions impl="PersistedWorkingLog" opaque='[{"expr": "HashMap<String, Vec<LineAttribution>>", "call": "InitFiles"}, {"expr": "HashMap<String, PromptRecord>", "call": "InitPrompts"}, {"expr": "attributions .into_iter() .filter(|(_, attrs)| !attrs.is_empty()) .collect()", "call": "opq_drop_empty(attributions)"}, {"expr": "serde_json::to_string_pretty(&initial_data)?", "call": "opq_to_json(&initial_data)?"}]'
     pub fn write_initial_attributions(
         &self,
         attributions: InitFiles,
@@ -643,13 +740,17 @@ impl PersistedWorkingLog {
     ) -> (r_: Result<(), GitAiError>)
     //@     ensures
     //@         // after Ok the INITIAL file of THIS working log holds exactly the entries given that have lines (and the prompts given)
-    //@         r_ is Ok && !dev_empty_write(wl_head(*self), fview(attributions)) ==> initial_now_is(wl_head(*self), nonempty(fview(attributions)), prompts),
+    //@         r_ is Ok ==> initial_now_is(wl_head(*self), nonempty(fview(attributions)), prompts),
     {
         // Filter out empty attributions
         let filtered: InitFiles = opq_drop_empty(attributions);
 
         if filtered.is_empty() {
-            // Don't create an INITIAL file if there are no attributions
+            // Don't create an INITIAL file if there are no attributions, and don't leave
+            // one behind: callers that removed the last file expect it to be gone.
+            if self.initial_file.exists() {
+                fs::remove_file(&self.initial_file)?;
+            }
             return Ok(());
         }
 
@@ -659,7 +760,7 @@ impl PersistedWorkingLog {
         };
 
         let json = opq_to_json(&initial_data)?;
-        opq_fs_write_initial(self, json)?;
+        fs::write(&self.initial_file, json)?;
 
         Ok(())
     }
@@ -674,7 +775,7 @@ fn delete_working_log_for_files(
 ) -> (r_: Result<(), GitAiError>)
 //@     ensures
 //@         // after Ok: the INITIAL attribution of base_commit is what it was, minus exactly `files` (prompts untouched)
-//@         r_ is Ok && files@.len() > 0 && !dev_empty_write(base_commit@, without(fview(init_files(base_commit@)), strs(files@), files@.len() as int))
+//@         r_ is Ok && files@.len() > 0
 //@             ==> initial_now_is(base_commit@, nonempty(without(fview(init_files(base_commit@)), strs(files@), files@.len() as int)), init_prompts(base_commit@)),
 {
     if files.is_empty() {
@@ -917,8 +1018,7 @@ fn save_stash_authorship_log(repo: &Repository, pathspecs: &[String]) -> (r_: Re
 //@         r_ is Ok ==> repo.w@.head is Some && ({
 //@             let h = repo.w@.head.unwrap(); let sel = stash_selected(wl_va(h), strs(pathspecs@));
 //@             sel.len() == 0 || (fact_note_saved(rev_of("stash@{0}"@), ser_log(restrict_log(va_log(wl_va(h)), sel)))
-//@                 && (dev_empty_write(h, without(fview(init_files(h)), sel, sel.len() as int))
-//@                     || initial_now_is(h, nonempty(without(fview(init_files(h)), sel, sel.len() as int)), init_prompts(h)))) }),
+//@                 && initial_now_is(h, nonempty(without(fview(init_files(h)), sel, sel.len() as int)), init_prompts(h))) }),
 {
     let head_sha = opq_head_sha(repo)?;
 
@@ -988,8 +1088,34 @@ fn opq_write_initial_q(w: &PersistedWorkingLog, files: InitFiles, prompts: InitP
 
 // ================================================================== path checkout: which entries leave the working log
 #[verifier::external_body] pub struct Checkpoint { _o: () }
-/// matches_any_pathspec(file, pathspecs) (unit discard)
-pub uninterp spec fn co_selects(f: Seq<char>, paths: Seq<Seq<char>>) -> bool;
+pub open spec fn is_prefix(p: Seq<char>, s: Seq<char>) -> bool { p.len() <= s.len() && s.subrange(0, p.len() as int) == p }
+/// gitglossary(7) pathspec, literal forms: `.` names the whole work tree (repaired finding F4, /repo 92077dfb), the file itself,
+/// everything below a directory written with or without the trailing slash
+pub open spec fn co_selects1(p: Seq<char>, f: Seq<char>) -> bool {
+    p == "."@ || f == p || (p.len() > 0 && p.last() == '/' && is_prefix(p, f)) || is_prefix(p.push('/'), f)
+}
+pub open spec fn co_selects(f: Seq<char>, paths: Seq<Seq<char>>) -> bool { exists|i: int| 0 <= i < paths.len() && co_selects1(#[trigger] paths[i], f) }
+/// `git checkout -- .` leaves no file's pending attribution behind
+proof fn theorem_dot_selects_every_file(paths: Seq<Seq<char>>, m: Map<Seq<char>, LineAttrs>)
+    requires paths.contains("."@),
+    ensures forall|f: Seq<char>| co_selects(f, paths), m_empty(keep_unselected(m, paths)),
+{
+    let i = choose|i: int| 0 <= i < paths.len() && paths[i] == "."@;
+    assert forall|f: Seq<char>| co_selects(f, paths) by { assert(co_selects1(paths[i], f)); }
+}
+/// rule O1: the whole `.iter().any(..)` expression of matches_any_pathspec (iterator adapter with a closure over str predicates), with the
+/// documented meaning of Iterator::any, String == &str, str::ends_with(char), str::starts_with(&str), format!("{}/", p); the sweep runs the original
+#[verifier::external_body]
+fn opq_any_pathspec_matches(file: &str, pathspecs: &[String]) -> (r: bool)
+    ensures r == co_selects(file@, strs(pathspecs@)),
+{ unimplemented!() }
+//#item file=src/commands/hooks/checkout_hooks.rs kind=fn name=matches_any_pathspec opaque='[{"expr": "pathspecs.iter().any(|p| { p == \".\" || file == p || (p.ends_with(\u0027/\u0027) && file.starts_with(p)) || file.starts_with(&format!(\"{}/\", p)) })", "call": "opq_any_pathspec_matches(file, pathspecs)"}]'
+fn matches_any_pathspec(file: &str, pathspecs: &[String]) -> (r_: bool)
+//@     ensures r_ == co_selects(file@, strs(pathspecs@)),
+{
+    opq_any_pathspec_matches(file, pathspecs)
+}
+//#end
 pub open spec fn keep_unselected(m: Map<Seq<char>, LineAttrs>, paths: Seq<Seq<char>>) -> Map<Seq<char>, LineAttrs> { m.restrict(m.dom().filter(|k: Seq<char>| !co_selects(k, paths))) }
 /// the checkpoints of `base`'s working log
 pub uninterp spec fn cps_of(base: Seq<char>) -> Seq<Checkpoint>;
